@@ -9,13 +9,16 @@ Cfg0 == [ttl |-> 40, mttl |-> 20, ord |-> FALSE, filt |-> NoFilter, minB |-> 2, 
 C1 == [name |-> "s1", topic |-> "t1", cfg |-> [Cfg0 EXCEPT !.dlt = "t2", !.maxAtt = 2]]
 C2 == [name |-> "s2", topic |-> "t1", cfg |-> [Cfg0 EXCEPT !.filt = F_has_a, !.ord = TRUE]]
 C3 == [name |-> "s3", topic |-> "t2", cfg |-> [Cfg0 EXCEPT !.mttl = 8]]
+\* retention outlives the expiration TTL: an idle subscription is past its expiry while it still has a backlog
+C5 == [name |-> "s4", topic |-> "t1", cfg |-> [Cfg0 EXCEPT !.ttl = 6, !.mttl = 60]]
 C4 == [name |-> "s2", topic |-> "t2", cfg |-> Cfg0]
 mcTopicNames == {"t1", "t2"}
-mcSubNames == {"s1", "s2", "s3"}
+mcSubNames == {"s1", "s2", "s3", "s4"}
 mcSnapNames == {"n1"}
-mcSubCfgs == {C1, C2, C3, C4}
+mcSubCfgs == {C1, C2, C3, C4, C5}
 mcSetup == << [op |-> "CreateTopic", name |-> "t1"], [op |-> "CreateTopic", name |-> "t2"],
-              [op |-> "CreateSub", c |-> C1], [op |-> "CreateSub", c |-> C2], [op |-> "CreateSub", c |-> C3] >>
+              [op |-> "CreateSub", c |-> C1], [op |-> "CreateSub", c |-> C2], [op |-> "CreateSub", c |-> C3],
+              [op |-> "CreateSub", c |-> C5] >>
 mcMsgKinds == { [key |-> "", attrs |-> <<>>], [key |-> "K", attrs |-> [a |-> "x"]], [key |-> "K", attrs |-> [a |-> "xy"]] }
 mcPrefixPairs == {<<"x", "">>, <<"x", "x">>, <<"xy", "">>, <<"xy", "x">>, <<"xy", "xy">>}
 mcTickDs == {1, 3, 7, 15}
